@@ -279,3 +279,29 @@ func Replay(f func()) {
 	}()
 	f()
 }
+
+func AnyOf(bs ...bool) bool {
+	for _, b := range bs {
+		if b {
+			return true
+		}
+	}
+	return false
+}
+
+func AllOf(bs ...bool) bool {
+	for _, b := range bs {
+		if !b {
+			return false
+		}
+	}
+	return true
+}
+
+func IteInt(c bool, a, b int) int {
+	if c {
+		return a
+	}
+	return b
+}
+func Debug(tag string, v any) {}
